@@ -12,6 +12,10 @@ Sub-checks (named, so that the concurrent part can be added next to them):
   blanks   every "space look-alike" (characters that str.strip / split / isspace treat as white space, the wire format does
            not) x every position at the edges of line / action / specifier / data x base request; cuts around and inside
            the character, one-byte chunks
+  oversize lines of 2^k + a bytes for k = 16..21 (22 thorough) and a around 0 and around the first 1024-byte delivery
+           beyond 2^k: blanks up to a valid request at the end, filler with a valid request starting exactly at offset
+           2^k + a, a valid long `change`; each followed by `ping y`; in one piece (1024-byte deliveries), 1000- and
+           4099-byte chunks, cuts at 2^k
   lines    every catalogue line as a one-line stream (and followed by a partial line): all oracles; every single cut,
            all pairs of cuts (base lines; thorough: every line up to 160 bytes) resp. pairs of the cuts next to both
            ends / the middle / LF / 1024 boundaries, one-byte chunks, a timeout in the gaps
@@ -164,6 +168,7 @@ class Sock(nodes.FakeSock):
         super().__init__(chunks)
         self.eof = 0
         self.recvs = 0
+        self.off = 0        # bytes of chunks[0] already delivered (no re-slicing of megabyte chunks)
 
     def recv(self, n):
         self.recvs += 1
@@ -174,11 +179,13 @@ class Sock(nodes.FakeSock):
         if c is None:
             self.chunks.pop(0)
             raise socket.timeout()
-        if len(c) > n:
-            self.chunks[0] = c[n:]
-            return c[:n]
+        off = self.off
+        if len(c) - off > n:
+            self.off = off + n
+            return c[off:off + n]
         self.chunks.pop(0)
-        return c
+        self.off = 0
+        return c[off:] if off else c
 
     def __repr__(self):
         return '<sock>'
@@ -361,7 +368,9 @@ class Req:
             lc += '+blank-padded'
         if self.lookalike:
             lc += '+space-lookalike'
-        if len(self.raw) >= MESSAGE_READ_SIZE:
+        if len(self.raw) >= 1 << 16:
+            lc += '+huge'
+        elif len(self.raw) >= MESSAGE_READ_SIZE:
             lc += '+long'
         return lc
 
@@ -398,7 +407,8 @@ def stream_class(reqs):
         return 'only-a-partial-line'
     rank = {'ok': 0, 'nonstrict-json': 1, 'broken-json': 2, 'invalid-utf8': 3}
     worst = max((r.jsonclass for r in reqs), key=rank.get)
-    long = '+long' if any(len(r.raw) >= MESSAGE_READ_SIZE for r in reqs) else ''
+    long = '+huge' if any(len(r.raw) >= 1 << 16 for r in reqs) else \
+        '+long' if any(len(r.raw) >= MESSAGE_READ_SIZE for r in reqs) else ''
     return f'{min(len(reqs), 3)}-line-stream:{worst}{long}'
 
 
@@ -874,6 +884,84 @@ def shard_blanks(shard):
     return part
 
 
+# --- very long lines: sizes around every power of two from 64 KiB to 4 MiB
+
+OVERSIZE_TAILS = (b'ping x', b'deactivate', b'change m 7')
+
+
+def oversize_specs(tier):
+    """(k, form, a, tail index): a line of about 2^k bytes.
+      form 'blank'  : b'describe' + blanks + tail, line length 2^k + a  - whatever a buffer limit cuts off, the rest of the
+                      line reads as the valid request `tail`
+      form 'aligned': b'describe ' + b'x' * .. + tail with the tail starting exactly at offset 2^k + a (the offsets at which
+                      1024-byte deliveries first exceed 2^k, and 2^k itself)
+      form 'valid'  : a valid `change m:_s "aaa..."` request of length 2^k + a
+    every line is followed by the line `ping y` (the next line must be answered normally).  The largest sizes (quadratic
+    buffer handling in the handler) take a reduced set in the quick tier; the thorough tier takes all."""
+    res = []
+    kmax = 21 if tier == 'quick' else 22
+    for k in range(16, kmax + 1):
+        full = tier == 'thorough' or k <= 19
+        some = full or k == 20
+        for ti in range(len(OVERSIZE_TAILS)):
+            if ti and not some:
+                continue
+            for a in ((-1, 0, 1, 1024, 1025, 3000) if full else (1, 1025) if some else (1025,)):
+                res.append((k, 'blank', a, ti))
+            for a in ((0, 1, 1024, 2048) if full else (0, 1024) if some else (1024,)):
+                res.append((k, 'aligned', a, ti))
+        for a in ((-1, 0, 1, 1025) if full else (1,) if some else ()):
+            res.append((k, 'valid', a, 0))
+    return res
+
+
+def oversize_stream(spec):
+    k, form, a, ti = spec
+    n = 1 << k
+    tail = OVERSIZE_TAILS[ti]
+    if form == 'blank':
+        line = b'describe' + b' ' * (n + a - 8 - len(tail)) + tail
+    elif form == 'aligned':
+        line = b'describe ' + b'x' * (n + a - 9) + tail
+    else:
+        line = b'change m:_s "' + b'a' * (n + a - 14) + b'"'
+    return line + LF + b'ping y' + LF
+
+
+def oversize_segs(stream, spec, tier):
+    """in one piece (= 1024-byte deliveries) is the base; 1000-byte and 4096-byte chunks (the latter delivered in 1024-byte
+    pieces, i.e. with a different phase), single cuts at 2^k and next to it"""
+    k, form, _a, _ti = spec
+    n = 1 << k
+    size = len(stream)
+    yield tuple(range(1000, size, 1000)), ()
+    if tier == 'thorough' or k <= 19 or form != 'valid':
+        yield tuple(c for c in (n, n + 1) if 0 < c < size), ()
+    if tier == 'thorough' or k <= 19:
+        yield tuple(range(4099, size, 4099)), ()
+        yield tuple(c for c in (n - 1, n + 1024) if 0 < c < size), ()
+
+
+def shard_oversize(shard):
+    """shard = index range into oversize_specs"""
+    tier = core.TIER
+    part = core.Part()
+    rig = Rig()
+    try:
+        for spec in oversize_specs(tier)[shard[0]:shard[1]]:
+            box = Box(oversize_stream(spec))        # kept out of the frames' locals as far as possible (see Box)
+            case = {'sub': 'oversize', 'spec': list(spec)}
+            part.states += 1
+            part.nontrivial += 1
+            base = check_stream(rig, box.v, part, 'oversize', None, case)
+            explore_segmentations(rig, box.v, base, oversize_segs(box.v, spec, tier), part, case)
+            part.sample({'line': f'{spec[1]} line of 2^{spec[0]}{spec[2]:+d} bytes ending in {OVERSIZE_TAILS[spec[3]]!r}, then ping y',
+                         'output': repr(base[:70] + b' ... ' + base[-40:])})
+    finally:
+        rig.close()
+    return part
+
+
 _CAT = {}
 
 
@@ -950,12 +1038,12 @@ def hexs(b):
     return b.hex()
 
 
-def check_stream(rig, stream, part, where, solo=None):
+def check_stream(rig, stream, part, where, solo=None, case=None):
     """base execution (stream in one piece - recv() still delivers at most MESSAGE_READ_SIZE bytes at a time), with and
     without a watching second connection: O1-O5, O7, O8.  Returns the base output."""
     lines, _partial = split_stream(stream)
     reqs = [Req(l) for l in lines]
-    case = {'sub': 'stream', 'stream': hexs(stream), 'where': where}
+    case = case or {'sub': 'stream', 'stream': hexs(stream), 'where': where}
     part.evaluations += 2
     part.transitions += 2 * (len(stream) // MESSAGE_READ_SIZE + 2)
     run = rig.run([stream] if stream else [])
@@ -1350,6 +1438,9 @@ def _run_sequential(ctx):
         ctx.pmap(shard_codec, [[i] for i in range(len(codec_triples(tier)[0]))], name='codec')
     if want('blanks'):
         ctx.pmap(shard_blanks, list(range(len(SPACE_LOOKALIKES) + len(NO_SPACE_CONTROLS))), name='blanks')
+    if want('oversize'):
+        nover = len(oversize_specs(tier))
+        ctx.pmap(shard_oversize, [(i, i + 1) for i in range(nover)], name='oversize')
     if want('lines'):
         ctx.pmap(shard_lines, [(i, min(i + 4, n)) for i in range(0, n, 4)], name='lines')
     sshards, nstreams, fullmax = short_shards(tier)
@@ -1370,7 +1461,9 @@ def _run_sequential(ctx):
         'methods take for white space but the wire format does not (VT FF FS GS RS US NEL NBSP U+1680 U+2000-200A LS PS U+202F U+205F '
         'U+3000; + ZWSP, BOM as controls) x position (alone, start / end of line, both, before CR, end of action, start / end of '
         'specifier, instead of the blank, start of data) x base request (8 quick, all thorough) x cuts around and inside the '
-        'character + one-byte chunks. lines: every catalogue line (and line + '
+        'character + one-byte chunks. oversize: lines of 2^k + a bytes (k = 16..21/22; a in -1..3000) whose end / whose bytes from '
+        'offset 2^k + a on spell a valid request, and valid long requests, followed by another line; 1024-, 1000-, 4099-byte '
+        'deliveries. lines: every catalogue line (and line + '
         'partial line) x all cut sets with <= 2 cuts (all offsets up to 64/160 bytes, else offsets around LF / 1024 boundaries) + '
         'one-byte chunks + a timeout in every gap. short: every stream of <= FULLMAX bytes made of 1-3 short lines (+ partial line) '
         'x all 2^(n-1) cut sets + timeouts. pairs: (line, probe) and (probe, line) two-line streams (thorough: + all ordered pairs of the quick catalogue) x '
@@ -1403,16 +1496,20 @@ def replay(case):
     if sub == 'codec-line':
         check_canonical(bytes.fromhex(case['line']), part)
         return part
-    stream = bytes.fromhex(case['stream'])
+    if sub == 'oversize':
+        stream = oversize_stream(tuple(case['spec']))
+        stream_case = {'sub': 'oversize', 'spec': case['spec']}
+    else:
+        stream = bytes.fromhex(case['stream'])
+        stream_case = {'sub': 'stream', 'stream': case['stream'], 'where': case.get('where', 'stream')}
     rig = Rig()
-    solo = Solo(rig, core.TIER)
+    solo = Solo(rig, core.TIER) if sub != 'oversize' else None
     try:
-        base = check_stream(rig, stream, part, case.get('where', 'stream'), solo)
+        base = check_stream(rig, stream, part, case.get('where', 'stream'), solo, stream_case)
         if 'cuts' in case:
             nones = case.get('nones') or ()
             nones = 'all' if nones == 'all' else tuple(nones)
-            explore_segmentations(rig, stream, base, [(tuple(case['cuts']), nones)], part,
-                                  {'sub': 'stream', 'stream': case['stream'], 'where': case.get('where', 'stream')})
+            explore_segmentations(rig, stream, base, [(tuple(case['cuts']), nones)], part, stream_case)
     finally:
         rig.close()
     return part
